@@ -115,15 +115,30 @@ def _component(term, dur):
 
 
 def duration_writer(prog: Program, rep: Report, rule="R04.2", only_coverage=False):
-    f = prog.function(f"{C.SERDES}.isoformat")
-    q = f.qualname
+    # the duration writer is whichever serdes function returns the f-string that opens with the 'P' designator
+    f = None
     target = None
-    for p, r in P.returns(P.paths_of(prog, f)):
-        if r[0] == "fstr":
-            target = (p, r)
+    for cand_q, cand in sorted(prog.functions.items()):
+        if not cand_q.startswith(C.SERDES + "."):
+            continue
+        try:
+            cps = P.paths_of(prog, cand)
+        except AnalysisError:
+            continue
+        for p, r in P.returns(cps):
+            if r[0] == "fstr" and r[1] and r[1][0] == ("const", "P"):
+                f, target = cand, (p, r)
     if target is None:
-        rep.undecided(rule, q, f.loc, "duration f-string not found in isoformat")
+        iso = prog.function(f"{C.SERDES}.isoformat")
+        rep.undecided(rule, iso.qualname, iso.loc, "duration f-string not found in serdes")
         return
+    # it must be what isoformat() uses for timedeltas
+    iso = prog.function(f"{C.SERDES}.isoformat")
+    if f is not iso:
+        reach = any(T.is_call_to(r, f.qualname) and r[2] == (("param", iso.params[0]),) for _, r in P.returns(P.paths_of(prog, iso)))
+        if not reach:
+            rep.violated(rule, iso.qualname, iso.loc, f"isoformat() does not return {f.name}(dt) for durations", detail="delegation")
+    q = iso.qualname
     p, r = target
     parts = r[1]
     joins = [(i, _join_parts(x[1])) for i, x in enumerate(parts) if x[0] == "fmt"]
@@ -206,7 +221,7 @@ def duration_writer(prog: Program, rep: Report, rule="R04.2", only_coverage=Fals
         for c in pth.calls():
             if T.refname(c[1]) == "pendulum.duration":
                 kw = dict(c[3])
-                good = set(kw) == {"days", "seconds", "microseconds"} and all(v == ("attr", ("param", "dt"), k) for k, v in kw.items()) and not c[2]
+                good = set(kw) == {"days", "seconds", "microseconds"} and all(v == ("attr", ("param", f.params[0]), k) for k, v in kw.items()) and not c[2]
                 rep.check(good, "R04.2", q, f.loc, "pendulum.duration receives the timedelta's own days/seconds/microseconds under their names", "pendulum.duration is not fed all three normalised timedelta fields under their own names: " + T.show(c)[:140], detail="duration-inputs")
                 break
     # language: 'T' is emitted unconditionally => 'PT', 'P1DT' are outside ISO-8601
